@@ -516,7 +516,13 @@ func defaultRedirectTrailingSlashHandler(c Context) {
 		code = http.StatusPermanentRedirect
 	}
 
-	url := FixTrailingSlash(req.URL.EscapedPath())
+	// Start from the path the request was routed with. EscapedPath would re-encode the decoded path whenever RawPath is
+	// not the encoding net/url prefers, turning an encoded slash (%2F) into a real one.
+	escaped := req.URL.RawPath
+	if escaped == "" {
+		escaped = req.URL.EscapedPath()
+	}
+	url := FixTrailingSlash(escaped)
 
 	if url[len(url)-1] == '/' {
 		base := path.Base(url)
